@@ -734,6 +734,23 @@ fn str_corr<T: Serialize + for<'a> Deserialize<'a>>(
         Ok(Ok(s)) => {
             let t = s.trim_matches('"').to_string();
             c.op(&format!("{pfx}.ser {arg}"), &hex(t.as_bytes()));
+            // wire oracles (audit2 LOW-1): the JSON document is the text between two quotes, nothing escaped;
+            // the bincode document is the u64-LE byte length followed by the very same text
+            if s != format!("\"{t}\"") || t.bytes().any(|b| b == b'"' || b == b'\\' || b < 0x20 || b >= 0x7f) {
+                c.fail("wire: JSON form of a string type is not the quoted plain ASCII text", &format!("{pfx} {arg} -> {s}"));
+            }
+            c.count_n("call:wire.str.bincode", 1);
+            match guard(|| bincode::serialize(v)) {
+                Ok(Ok(b)) => {
+                    let mut want = (t.len() as u64).to_le_bytes().to_vec();
+                    want.extend_from_slice(t.as_bytes());
+                    if b != want {
+                        c.fail("wire: bincode bytes of a string type differ from u64-LE length ++ text", &format!("{pfx} {arg} -> {}", hex(&b)));
+                    }
+                }
+                Ok(Err(e)) => c.fail("wire: bincode refuses a string type that serde_json writes", &format!("{pfx} {arg}: {e}")),
+                Err(()) => c.fail("wire: bincode serialization of a string type panics", &format!("{pfx} {arg}")),
+            }
             t
         }
         Ok(Err(_)) => {
@@ -758,6 +775,22 @@ fn str_corr<T: Serialize + for<'a> Deserialize<'a>>(
             Err(()) => "panic".to_string(),
         };
         c.op(&format!("{pfx}.de {}", hex(t.as_bytes())), &shown);
+        // the same text (original and edited) reaches `visit_str` through bincode too: same answer
+        let mut bytes = (t.len() as u64).to_le_bytes().to_vec();
+        bytes.extend_from_slice(t.as_bytes());
+        let rb = guard(|| bincode::deserialize::<T>(&bytes));
+        let shown_b = match &rb {
+            Ok(Ok(x)) => format!("ok {}", show(x)),
+            Ok(Err(_)) => "err".to_string(),
+            Err(()) => "panic".to_string(),
+        };
+        c.count_n("call:wire.str.bincode.de", 1);
+        if shown_b != shown {
+            c.fail(
+                "wire: a text read through bincode gives another answer than through serde_json",
+                &format!("{pfx} {:?}: json {shown}, bincode {shown_b}", t),
+            );
+        }
     }
 }
 fn show_date(d: &NaiveDate) -> String {
